@@ -3,5 +3,6 @@ import ForsysModel.Model.Geometry
 import ForsysModel.Model.Mesh
 import ForsysModel.Model.BigEdges
 import ForsysModel.Model.Resample
+import ForsysModel.Model.Construct
 import ForsysModel.Model.Tangent
 import ForsysModel.Model.FMatrix
